@@ -218,9 +218,53 @@ def h_prefix(n0: int, n1: int, n2: int, has2: bool, plen: int, pbits: int, known
     assert r[0]
 
 
+# ids that are not ids: strings of 32+ characters that the file system resolves to something that exists
+NOT_IDS = ["@/", "@/.", "./" * 16, "../workspace/@", "@/signac_statepoint.json", "@/../@", "not_a_job" + "/" * 23, "@ ", "@\n", "X@"[1:].upper() if False else "@".upper()]
+
+
+def _notid_case(k, known, by_real):
+    """an unknown id raises KeyError - also a string that is no id at all but, appended to the workspace path, names an existing entry"""
+    fs = ws.new_fs()
+    memfs.install(fs)
+    try:
+        pr = memfs.mkproject(fs)
+        job = pr.open_job({"i": 0}).init()
+        fs.put_dir("/p/workspace/not_a_job")
+        pr2 = memfs.mkproject(fs)
+        if known:
+            pr2.open_job(id=job.id).statepoint()
+        s = NOT_IDS[k].replace("@", job.id)
+        if s == job.id:
+            s = job.id.upper() if job.id.upper() != job.id else job.id + "0"
+        try:
+            got = pr2.open_job(id=s)
+            out = ("ok", got.id)
+        except LookupError as e:
+            out = ("KeyError",) if isinstance(e, KeyError) else ("LookupError",)
+        except Exception as e:  # noqa
+            out = ("error", type(e).__name__)
+        ok = out == ("KeyError",)
+    finally:
+        memfs.uninstall()
+        if isinstance(fs, memfs.RealFS):
+            fs.cleanup()
+    return ok, (s, out)
+
+
+def h_notid(k: int, known: bool):
+    assert 0 <= k < len(NOT_IDS)
+    fresh_path()
+    k, known = ci(k, 0, len(NOT_IDS) - 1), cb(known)
+    with nt():
+        r = _notid_case(k, known, False)
+    reached()
+    assert r[0]
+
+
 HARNESSES = [
     dict(name="h_persist", twin="h_persist__reach", timeout=(400, 900)),
     dict(name="h_prefix", timeout=(600, 1500), parts=(16, 16)),
+    dict(name="h_notid", timeout=(200, 400)),
 ]
 
 
